@@ -110,7 +110,9 @@ class BuildInterp(Interp):
         if rv["k"] == "discr":
             loc = self.resolve(st, rv["place"])
             if loc[0] == "msg" and not loc[1]:
-                return self.choose(st, "variant", self.variants)
+                nb = st.choices.get("number")
+                opts = self.variants if nb == 1 else (self.unsupported if nb == 0 else list(self.variants) + list(self.unsupported))
+                return self.choose(st, "variant", opts)
         return Interp.rvalue(self, st, rv, dest_place)
 
     # ---- Q as an integer and as a bit pattern
@@ -220,6 +222,8 @@ class BuildInterp(Interp):
             if not isinstance(a, Asm):
                 raise Undecided("%s on an unknown assembler" % short)
             nc = getattr(st, "ncall", 0) + 1
+            if len(st.writes_log) < nc:
+                st.writes_log.append(("put", args[1], args[2]) if c.endswith("::put") else ("encode", c, None))
             ok = self.choose(st, "call%d" % nc, [1, 0])
             st.ncall = nc
             st.window_written = True
@@ -231,6 +235,8 @@ class BuildInterp(Interp):
                 return Adt("core::result::Result", 0, "Ok", [UNIT])
             return Adt("core::result::Result", 1, "Err", [Opaque("error", (c,))])
         if c == "msg::message::Message::number":
+            if "variant" in st.choices and "number" not in st.choices:
+                st.choices["number"] = 1 if st.choices["variant"] in self.variants else 0
             some = self.choose(st, "number", [1, 0])
             if some:
                 return Adt("core::option::Option", 1, "Some", [BV([bf_atom(("N", k)) for k in range(16)], False)])
@@ -416,10 +422,11 @@ class NeedChoice(Exception):
         self.name, self.options = name, options
 
 
-def explore(prog, f, i_data, i_run, variants, max_paths=6000):
+def explore(prog, f, i_data, i_run, variants, max_paths=6000, unsupported=None):
     """All abstract paths: forks at every unknown choice (state cloned at the fork point)."""
     it = BuildInterp(prog, f, i_data, i_run)
     it.variants = variants
+    it.unsupported = unsupported or []
     blocks = it.blocks
     done = []
     st0 = BState()
@@ -434,6 +441,7 @@ def explore(prog, f, i_data, i_run, variants, max_paths=6000):
         st.locals[1] = Ref(("self", ()))
         st.locals[2] = Ref(("msg", ()))
         st.choices = {"has_run": hr}
+        st.writes_log = []
         work.append((st, 0, 0))
     npaths = 0
     while work:
@@ -511,8 +519,8 @@ def explore(prog, f, i_data, i_run, variants, max_paths=6000):
 
 
 # ------------------------------------------------------------------ specification
-def check(prog):
-    """{'paths', 'problems': [(category, text)], 'undecided': [text]}"""
+def check(prog, numtab=None):
+    """{'paths', 'problems': [(category, text)], 'undecided': [text]}; numtab: {variant discriminant: message number} read off Message::number (T-num)"""
     out = {"paths": 0, "ok_paths": 0, "problems": [], "undecided": []}
     f = prog.fn(BUILD)
     adt = prog.adts.get("msg::message::MessageBuilder")
@@ -526,6 +534,7 @@ def check(prog):
         return out
     i_data, i_run = fields.index("data"), fields.index("has_run")
     variants = [int(v["discr"]) for v in madt["variants"] if v["name"] not in ("Empty", "Corrupt", "MsgNotSupported")]
+    unsupported = [int(v["discr"]) for v in madt["variants"] if v["name"] in ("Empty", "Corrupt", "MsgNotSupported")]
     seen = set()
 
     def prob(cat, text):
@@ -535,7 +544,7 @@ def check(prog):
     bitsem.QMIN, bitsem.QMAX = 2, 1023
     try:
         try:
-            done, it = explore(prog, f, i_data, i_run, variants)
+            done, it = explore(prog, f, i_data, i_run, variants, unsupported=unsupported)
         except Panic as e:
             prob("panic", "panic: %s" % e)
             return out
@@ -567,8 +576,9 @@ def check(prog):
             if not isinstance(ret, Adt) or ret.vname not in ("Ok", "Err"):
                 prob("out", "a return value is not Ok(..)/Err(..) built in place")
                 continue
+            nonum = st.choices.get("number") == 0 or st.choices.get("variant") in unsupported
             if ret.vname == "Err":
-                if st.choices.get("number") == 0:
+                if nonum:
                     e = ret.fields[0]
                     if not (isinstance(e, Adt) and e.vname == "EncodingNotSupported"):
                         prob("num", "a message without a number is refused with %s, expected EncodingNotSupported" % getattr(e, "vname", "?"))
@@ -577,9 +587,24 @@ def check(prog):
                 continue
             # ---- Ok
             out["ok_paths"] += 1
-            if st.choices.get("number") == 0:
+            if nonum:
                 prob("num", "a frame is produced for a message without a number")
                 continue
+            # the first thing written into the window is the message's own number, in 12 bits; then exactly one encoder runs
+            wl = st.writes_log
+            first_ok = False
+            if wl and wl[0][0] == "put":
+                val, width = wl[0][1], wl[0][2]
+                if isinstance(val, BV) and val.concrete() is not None:
+                    val = val.concrete()
+                own = isinstance(val, BV) and tuple(val.bits[:16]) == tuple(bf_atom(("N", k)) for k in range(16)) and all(b == 0 for b in val.bits[16:])
+                if not own and isinstance(val, int) and numtab is not None and "variant" in st.choices:
+                    own = numtab.get(st.choices["variant"]) == val
+                first_ok = own and width == 12
+            if not first_ok:
+                prob("first", "the first write of a build is %s, expected put(the message's own number, 12)" % (wl[0][:3] if wl else "nothing",))
+            if [w[0] for w in wl[1:]] != ["encode"]:
+                prob("first", "after the number %s run, expected exactly one encoder" % ([w[0] for w in wl[1:]],))
             fr = ret.fields[0]
             if not (isinstance(fr, Ref) and fr.loc[0] == "slice" and lin_parts(fr.loc[1]) == (0, 0) and lin_parts(fr.loc[2]) == (1, 6)):
                 prob("out", "the returned frame is %s, expected data[0 .. data_len+6]" % (getattr(fr, "loc", fr),))
